@@ -213,8 +213,36 @@ func TestVerifBoundedMapModel(t *testing.T) {
 		}
 	}
 	rec(NewMap(), map[int]Object{}, nil, 0)
+	// every merge L + R of two maps over the key universe (all subsets on both sides: every interleaving of key types,
+	// every size on either side of the 4-pair threshold); the right operand's values win
+	// (two universes: the mixed-type keys, then nine numeric keys - integers and floats interleave in key order)
+	allKeys := keys
+	for _, universe := range [][]Object{allKeys, {Integer{Value: -3}, Integer{Value: 1}, Integer{Value: 2}, Integer{Value: 4}, Integer{Value: 7}, Float{Value: -0.5}, Float{Value: 1.5}, Float{Value: 2.5}, Float{Value: 6.5}}} {
+		keys = universe
+		nAll := len(keys)
+		for lmask := 0; lmask < 1<<nAll; lmask++ {
+			for rmask := 0; rmask < 1<<nAll; rmask++ {
+				l, r := NewMap(), NewMap()
+				present := map[int]Object{}
+				for k := 0; k < nAll; k++ {
+					if lmask&(1<<k) != 0 {
+						l = l.Set(keys[k], vals[0])
+						present[k] = vals[0]
+					}
+				}
+				for k := nAll - 1; k >= 0; k-- {
+					if rmask&(1<<k) != 0 {
+						r = r.Set(keys[k], vals[1])
+						present[k] = vals[1]
+					}
+				}
+				check(l.Append(r), present, []string{fmt.Sprintf("merge %s + %s", l.Inspect(), r.Inspect())})
+			}
+		}
+	}
+	keys = allKeys
 	fmt.Printf("BOUNDED evaluations=%d distinct=%d exhaustive=true bound=%q\n", evals, len(seen),
-		fmt.Sprintf("all sequences of up to %d operations (set with 2 values, delete, rest, merge with a 2-pair map, merge with the empty map, merge with a 5-pair map, range prefix) over %d keys of mixed types (int, float, string, bool, nil, array), starting from the empty map; crosses the 4-pair threshold in both directions", maxOps, nk+1))
+		fmt.Sprintf("all sequences of up to %d operations (set with 2 values, delete, rest, merge with a 2-pair map, merge with the empty map, merge with a 5-pair map, range prefix) over %d keys of mixed types (int, float, string, bool, nil, array), starting from the empty map; crosses the 4-pair threshold in both directions; and every merge L + R of two maps over all subsets of the 8 mixed keys and of 9 numeric keys (integers and floats interleaved; 65536 + 262144 pairs)", maxOps, nk+1))
 	if fails > 0 {
 		t.Fatalf("%d failures", fails)
 	}
